@@ -1,18 +1,23 @@
 CONFIG = dict(
     id="C06",
     engine="pure",
-    technique="Lean 4 theorems (round trip, decoder totality with checked accesses, packet stream round trip) over a hand-written model + differential correspondence with the real codec",
+    technique="Lean 4 theorems (round trip, decoder totality with checked accesses, packet stream round trip, dictionary with trimmed keys, session layer never crashes) over a hand-written model + differential correspondence with the real codec and a real ClientSession",
     level_text="Machine-checked proof in Lean 4 that the model of message.Encode/Decode and of the packet encoder/decoder round-trips every "
                "message/packet list within protocol limits and that no byte string makes a checked index/slice fail (oob = Go panic); the model is tied "
-               "to the Go code on every run by executing both on ~70k generated op lines (all byte strings <=2 bytes exhaustively, valid messages, "
-               "truncations, mutations, malformed packet streams) and the property predicate is evaluated on the implementation's own outputs.",
+               "to the Go code on every run by executing both on ~74k generated op lines (all byte strings <=2 bytes exhaustively, valid messages, "
+               "truncations, mutations, malformed packet streams, SetDictionary calls with blank-padded keys, two/many calls on one long-lived packet decoder "
+               "with earlier results read again, ~2300 real ClientSessions each fed one generated Data packet) and the property predicate is evaluated on the "
+               "implementation's own outputs; a death of the harness process (panic on a session's reader goroutine) is a witness (C06/server-crash).",
     level_note="Trusted: Lean kernel, the harness/driver line protocol and canonicalisation, zlib as an abstract inverse pair (validated per payload), "
-               "the dictionary as mutually inverse finite maps. The theorem is about the model; the differential run ties it to the code on sampled inputs only.",
+               "the dictionary as mutually inverse finite maps, TrimSpace as trimming of space/\\t/\\n/\\r (exact on the ASCII keys generated). Aliasing of returned slices "
+               "cannot be expressed in the pure model: it is covered only by the differential pdec2/pdecs/pchk stream. The theorem is about the model; the differential run ties it to the code on sampled inputs only.",
     lean_targets=["Cell2v.Props.C06", "modeld_c06"],
     driver="modeld_c06",
     driver_root="Cell2v.Driver.C06",
     audit="Audit/C06.lean",
-    required_theorems=["decode_encode", "decode_total", "packets_roundtrip", "varint_roundtrip", "header_roundtrip", "SetDictionary_bijective", "decode_encode_any_dictionary", "frame_ok_iff_valid"],
+    required_theorems=["decode_encode", "decode_total", "packets_roundtrip", "varint_roundtrip", "header_roundtrip", "SetDictionary_bijective", "decode_encode_any_dictionary", "frame_ok_iff_valid",
+                       "trim_spec", "SetDictionary_stores_trimmed_key", "SetDictionary_order_independent",
+                       "earlier_results_unchanged", "session_never_crashes", "session_closed_iff", "session_delivers_encoded"],
     harness_pkg="./c06",
     mode="diff",
     runs={
@@ -21,21 +26,38 @@ CONFIG = dict(
                      dict(name="seed2", env={"VERIF_N": "30000"}, seed_offset=1000, timeout=1500),
                      dict(name="len3", test="TestExhaustive3", timeout=1500)],
     },
-    trivial=r"^(err|bad-op|encerr)?$",
+    trivial=r"^(err|bad-op|encerr|none|working)?$",
     rule="op lines generated from one PRNG (VERIF_SEED): every byte string of length <=2 through message.Decode (exhaustive), "
          "structure-aware valid messages (4 types + invalid types, ids at varint boundaries up to 2^64-1, routes empty/dictionary/255 bytes, "
          "payloads up to 300 B quick / 70 kB thorough, compression on/off) encoded and decoded by the real code, truncations and single-bit "
          "mutations of valid encodings, random strings, id-field stress, packet lists framed and re-split, malformed packet streams; "
+         "SetDictionary calls (single entry incl. duplicates of route/code; multi-entry without duplicates) with ASCII keys padded by space/\\t/\\n/\\r or all blank, "
+         "GetDictionary sorted, round trips on the trimmed routes; pdec2 (two Decode calls on one decoder, first result rendered before and after the second call), "
+         "pdecs/pchk (one decoder for the whole run, last 8 results kept alive and rendered again later); session stream: a real session.ClientSession over a scripted "
+         "PlayerConn with the real pomelo.SessionsImpl/sche.Sche/impls.ClientSessions and a recording ISessionsHandler, handshake + ack, then one Data packet "
+         "(every message of length <=1, every flag byte x 7 tails, valid/truncated/mutated/random/varint-stress encodings), observation delivered <reqid,route,data> | closed, "
+         "the trace is flushed before the packet is released so that a dying process leaves the staged input as witness; "
          "a case is non-trivial when the implementation's observation is a value (not a bare error); distinct = distinct (op, observation) pairs",
     trusted_base=[
         "Lean 4.33.0 kernel; axioms of every property theorem audited on each run (allowed: propext, Classical.choice, Quot.sound)",
         "hand-written model lean/Cell2v/Model/Codec.lean tied to the Go code by the differential run of this check (harness/c06 + modeld_c06)",
         "compress/zlib abstracted as inflate(deflate d) = d (validated on every generated payload by the harness)",
-        "route dictionary abstracted as a pair of mutually inverse finite maps (SetDictionary driven with single-entry maps)",
+        "route dictionary abstracted as a pair of mutually inverse finite maps; multi-entry SetDictionary calls are issued without duplicates only "
+        "(then Go's map iteration order is irrelevant: theorem SetDictionary_order_independent); a call with a duplicate is issued as a single-entry map",
+        "strings.TrimSpace modelled as trimming of ASCII space, \\t, \\n, \\r (Cell2v.Codec.trimWs); Go additionally trims \\v, \\f, U+0085, U+00A0 and other Unicode spaces, "
+        "which the generator never puts into a key",
+        "aliasing (a returned []byte that shares memory with a buffer reused by a later call) is outside what a pure functional model can exhibit: "
+        "theorem earlier_results_unchanged states the clause, the pdec2/pdecs/pchk differential stream alone ties it to the Go code",
+        "session stream: the harness's scripted PlayerConn replaces the TCP/WS acceptor conn (GetNextMessage hands over one framed packet, as tcpPlayerConn does); "
+        "the harness goroutine plays the owner service (drains sche.Sche); a panic on the reader goroutine kills the harness process and is reported by bin/check "
+        "as pseudo-op <harness-exit ...>, which the spec monitor maps to C06/server-crash",
         "harness canonicalisation (error kinds collapsed to 'err', panics caught by recover and mapped to 'panic')",
     ],
     assumptions=[
         "byte slices handed to Decode have capacity = length (the harness makes exact copies), so an out-of-range slice expression is a panic",
         "packet body exactly 2^24 bytes is outside Packet.Valid (theorem d13_excluded_point states what the encoder does there)",
+        "dictionary keys are ASCII without \\v/\\f (on these strings.TrimSpace = trimming space/\\t/\\n/\\r)",
+        "inputs handed to Decode are never modified afterwards by the harness (message.Decode documents that Message.Data aliases its input: not flagged)",
+        "ClientMsg carries ClientReqId = uint32(ID), Route, Data (type and error flag are dropped by SessionsImpl.ProcessMessage): that is what `delivered` compares",
     ],
 )
